@@ -257,6 +257,15 @@ Theorem C08_recovery_single_topic : forall truth fail ps atts st t,
 Proof. exact recovery_single_topic. Qed.
 Print Assumptions C08_recovery_single_topic.
 
+(* Errors DELIVERED (fail_on_error=False, what Producer passes): one attempt heals every payload of the call at
+   once - wrongly routed payloads had their topic cleared, rightly routed ones kept or re-learnt a true leader - so
+   at most ONE attempt fails whatever the number of stale topics among the payloads; a budget of 2 suffices. *)
+Theorem C08_recovery_delivering_errors : forall truth ps atts st,
+  WF st -> NoDup (map p_key ps) -> all_good truth false ps st atts -> (2 <= length atts)%nat ->
+  exists k, first_success false ps st atts = Some k /\ (k <= 1)%nat.
+Proof. exact within_budget_delivering. Qed.
+Print Assumptions C08_recovery_delivering_errors.
+
 (* the measure means what it says *)
 Theorem C08_stale_count_meaning : forall truth st t,
   stale_tb truth st t = true <-> exists p n a, leader_of st (t, p) = Some (Some (n, a)) /\ n <> truth (t, p).
